@@ -16,11 +16,13 @@ EXPLANATION = (
     "solve with that factor; S3 the incremental update appends exactly the target it sampled and reuses the column it "
     "computed; S4 symbolic shape typing of the dense formulas with pairwise distinct symbolic dimensions (n data points, "
     "d features, m target columns, t test points): every matmul / solve / broadcast conforms and every function returns the "
-    "documented shape - which rejects transposition and axis slips that square or single-column test cases hide. "
+    "documented shape - which rejects transposition and axis slips that square or single-column test cases hide; S5 the input-warping wrapper evaluates the wrapped kernel at warped "
+    "inputs on every path of forward and diagonal (the diagonal may see the raw input only on the edge where the inner "
+    "diagonal does not depend on it), so that diagonal(X) and diag(K(X, X)) are the same function. "
     "NOT decided (the bulk of C08): that means, variances, likelihood values and updates equal the textbook expressions - "
     "a wrong sign, factor or a mathematically wrong but shape-correct formula is invisible to these rules.")
 
-FLOOR = {"S1": 3, "S2": 4, "S3": 8, "S4": 5}
+FLOOR = {"S1": 3, "S2": 4, "S3": 8, "S4": 5, "S5": 2}
 
 MODP = "syne_tune.optimizer.schedulers.searchers.bayesopt.gpautograd.posterior_utils."
 
@@ -163,9 +165,63 @@ def s4(ctx, rep):
                 "dense formula is not the one computed")
 
 
+def s5(ctx, rep):
+    """wrapper kernel: K_warped(x, x') = K(w(x), w(x')) and its diagonal agree - the wrapped kernel is evaluated at
+    warped inputs on every path, except that its diagonal may get the raw input where it does not depend on it."""
+    from ..core.facts import atoms_of
+    P = ctx.P
+    c = P.cls("WarpedKernel")
+    EXEMPT = ("truth", "self.kernel.diagonal_depends_on_X()", False)
+    n = 0
+    for mname in ("forward", "diagonal"):
+        f = c.methods[mname]
+        cfg = cfg_of(f)
+        sites = [(nd.id, x) for nd in cfg.nodes for x in cfg.node_walk(nd.id)
+                 if isinstance(x, ast.Call) and x.args and (U(x.func) == "self.kernel" or U(x.func) == "self.kernel.diagonal")]
+        if not sites:
+            raise AnchorError(f"WarpedKernel.{mname}: call of the wrapped kernel not found")
+
+        def ok_value(e, env, facts):
+            """is e a warped value (or, for the diagonal, exempt under the facts of its arm)?"""
+            if isinstance(e, ast.Call) and U(e.func) == "self._apply_warpings":
+                return True
+            if isinstance(e, ast.Name):
+                return env.get(e.id, False) or (mname == "diagonal" and EXEMPT in facts)
+            if isinstance(e, ast.IfExp):
+                return ok_value(e.body, env, facts | atoms_of(e.test, True)) and ok_value(e.orelse, env, facts | atoms_of(e.test, False))
+            return mname == "diagonal" and EXEMPT in facts
+
+        for nid, call in sites:
+            bad = []
+
+            def walk(node, env, facts, seen):
+                if node == nid:
+                    for a in call.args:
+                        if not ok_value(a, env, facts):
+                            bad.append((U(a), sorted(map(str, facts))))
+                    return
+                nd = cfg.nodes[node]
+                if nd.kind == "stmt" and isinstance(nd.ast, ast.Assign) and len(nd.ast.targets) == 1 and isinstance(nd.ast.targets[0], ast.Name):
+                    env = dict(env)
+                    env[nd.ast.targets[0].id] = ok_value(nd.ast.value, env, facts)
+                for s_, l in cfg.succ[node]:
+                    if s_ in seen or l == "exc":
+                        continue
+                    f2 = facts | atoms_of(l[1], l[2]) if isinstance(l, tuple) and l[0] == "cond" else facts
+                    walk(s_, env, f2, seen | {s_})
+            walk(cfg.entry, {}, frozenset(), {cfg.entry})
+            n += 1
+            rep.put(not bad, "S5", "agreement", f"WarpedKernel.{mname}: the wrapped kernel is evaluated at warped inputs on every path", f, call,
+                    "arguments come from self._apply_warpings(...)" + (" (raw input only where the inner diagonal does not depend on X)" if mname == "diagonal" else ""),
+                    f"on a path with {bad[0][1] if bad else ''} the argument `{bad[0][0] if bad else ''}` reaches the wrapped kernel unwarped: "
+                    "diagonal(X) != diag(K(X, X)), predictive variances and the incremental update no longer equal the dense definition")
+    return n
+
+
 def run(ctx, rep, tier="quick"):
     s1(ctx, rep)
     s2(ctx, rep)
     s3(ctx, rep)
     s3b(ctx, rep)
     s4(ctx, rep)
+    s5(ctx, rep)
